@@ -18,6 +18,7 @@ GIds == 1..8          \* 8 is never a member; 4..7 are members of some lists onl
 
 GTrees == UNION {VFAllTrees(n) : n \in 1..5}
            \cup { <<0, 1, 2, 3, 4, 3, 6>>, <<0, 1, 1, 2, 3, 4, 5>>, <<0, 1, 2, 3, 4, 5>> }
+           \cup {t \in VFAllTrees(6) : Cardinality({b \in VFBlocks(t) : VFChildren(t, b) = {}}) >= 3}
 
 (* model checking: small scope, exhaustive *)
 MTrees == { <<0, 1, 2, 2>>, <<0, 1, 1>> }
